@@ -30,12 +30,12 @@ pub static FOLD: Lazy<Vec<Vec<String>>> = Lazy::new(|| {
     rows
 });
 
-const BASES: &[&str] = &["foo", "bar baz", "q", "alpha beta gamma", "x1", "zed"];
+const BASES: &[&str] = &["foo", "bar baz", "q", "alpha beta gamma", "x1", "zed\\ end", "w\\ x y"];
 
 /// a spelling of base label `b` (index) that must match every other spelling of the same base
-fn variant(rng: &mut Rng, base: usize, fold_row: Option<&Vec<String>>) -> String {
+fn variant(rng: &mut Rng, base: usize, off: usize, fold_row: Option<&Vec<String>>) -> String {
     let mut s = String::new();
-    for c in BASES[base].chars() {
+    for c in BASES[(base + off) % BASES.len()].chars() {
         if c == ' ' { s.push_str(*rng.pick(&[" ", "  ", "\n", " \t ", "\t"])); }
         else if rng.chance(1, 2) { s.extend(c.to_uppercase()); } else { s.push(c); }
     }
@@ -53,13 +53,14 @@ pub fn run(n: usize, rng: &mut Rng, rep: &mut Report) {
     let md = Cfg::stock().build();
     for _ in 0..n {
         let fold_row = if rng.chance(2, 3) { Some(rng.pick(&FOLD).clone()) } else { None };
+        let off = rng.below(BASES.len());
         let nb = rng.range(1, 4);                    // bases in play
         let k = rng.range(0, 5);                     // definitions
         let mut defs: Vec<(usize, String)> = vec![]; // (base, block text)
         let mut first_for: Vec<Option<usize>> = vec![None; BASES.len()];
         for i in 0..k {
             let b = rng.below(nb);
-            let label = variant(rng, b, fold_row.as_ref());
+            let label = variant(rng, b, off, fold_row.as_ref());
             let dest = format!("/d{}", i);
             let def = format!("[{}]: {} \"t{}\"", label.replace('\n', "\n "), dest, i);
             let placed = match rng.below(5) { 0 => format!("> {}", def.replace('\n', "\n> ")), 1 => format!("- {}", def.replace('\n', "\n  ")), 2 => format!("> - {}", def.replace('\n', "\n>   ")), _ => def };
@@ -67,7 +68,7 @@ pub fn run(n: usize, rng: &mut Rng, rep: &mut Report) {
             defs.push((b, placed));
         }
         let ub = rng.below(nb.max(1) + 1).min(BASES.len() - 1); // sometimes a base without definition
-        let ulabel = variant(rng, ub, fold_row.as_ref()).replace('\n', " ");
+        let ulabel = variant(rng, ub, off, fold_row.as_ref()).replace('\n', " ");
         let form = rng.below(4);
         let usage = match form { 0 => format!("[text][{}]", ulabel), 1 => format!("[{}][]", ulabel), 2 => format!("[{}]", ulabel), _ => format!("![alt][{}]", ulabel) };
         let use_at = rng.below(defs.len() + 1);
